@@ -668,11 +668,17 @@ pub fn run_bin(prop: &str) {
                         let fund = bi(rt[22]);
                         let resid = [&l0[0] - &outs[0] - &l1[0], &l0[1] - &outs[1] - &l1[1]];
                         let other = 1 - kc;
-                        if resid[other] != BigInt::from(0) || resid[kc] < BigInt::from(0) || resid[kc] > fund {
+                        // F-C08b: fee dust — the fees count as paid although the last collateral units are missing because the
+                        // remainder converts to zero secondary (pnl) tokens; only possible when the two tokens differ
+                        let (pcm, ppm) = (bi(if cl { t[11] } else { t[13] }), bi(if il { t[11] } else { t[13] }));
+                        let dust = if resid[kc] < BigInt::from(0) && kc != kp && resid[other] == BigInt::from(0) && (-&resid[kc]) * &pcm < ppm { -&resid[kc] } else { BigInt::from(0) };
+                        if dust > BigInt::from(0) { out.known("F-C08b", "fee dust: fees credited in full although the last collateral units were not paid (remainder worth less than one pnl token)", &req); out.stat("fee.dust"); }
+                        let resid_c = &resid[kc] + &dust;
+                        if resid[other] != BigInt::from(0) || resid_c < BigInt::from(0) || resid_c > fund {
                             out.oracle_fail(&format!("decrease: accounted holdings minus outputs left residual {:?} (collateral token index {kc}); funding fee {fund}", resid), &req);
                         }
-                        if resid[kc] < fund { tr.short = true; out.stat("funding.short"); }
-                        tr.collected[kc] += &resid[kc]; tr.claimed[0] += bi(rt[23]); tr.claimed[1] += bi(rt[24]);
+                        if resid_c < fund { tr.short = true; out.stat("funding.short"); }
+                        tr.collected[kc] += &resid_c; tr.claimed[0] += bi(rt[23]); tr.claimed[1] += bi(rt[24]);
                         if rt[15] != "_" { out.stat(&format!("insolvent.{}", rt[15])); }
                         if bi(rt[23]) + bi(rt[24]) != BigInt::from(0) { out.stat("funding.claimed"); }
                     }
